@@ -9,7 +9,9 @@ package protocol
 
 //@ func protocol.NewConn
 //@   nopanic[C14,C16]
-//@   ensures[C16 failclosed] err != nil ==> ret == nil
+//@   ensures[* failclosed] err != nil ==> ret == nil
+//@   ensures[* total] !opts(opt).Err ==> err == nil
+//@   ensures[* base] err == nil ==> ret != nil && ret.Conn == base
 //@   ensures[C16 state] err == nil ==> ret != nil && ret.clientState == opts(opt).WithState && ret.Conn == base
 //@   ensures[C16 copy] err == nil ==> seqEq(ret.clientNextProtos, opts(opt).WithExtraAlpnProtos)
 //@   |   && (opts(opt).WithExtraAlpnProtos == nil <==> ret.clientNextProtos == nil)
@@ -23,3 +25,56 @@ package protocol
 
 //@ func protocol.(*Conn).ClientState
 //@   ensures[C16 state] c != nil ==> ret == c.clientState
+
+// ---------------------------------------------------------------- tls.go, listener.go (C02, C14, C15, C16)
+//
+// The listener's function fields default to (and are assumed to behave like)
+// the library functions they wrap.
+//@ fieldfunc protocol.InterceptingListener.fetchCredsFn as registration.FetchNodeCredentials
+//@ fieldfunc protocol.InterceptingListener.generateServerCertificatesFn as tls.GenerateServerCertificates
+
+// keptBefore(S, j): number of the first j offered protocols that are kept (not the
+// internal certificate-preference entry)
+//@ pred isPref(p) := hasPrefix(p, CertificatePreferenceV1Prefix)
+
+//@ func protocol.(*InterceptingListener).getTlsConfigForClient$1
+//@   let S = hello.SupportedProtos
+//@   let P = CertificatePreferenceV1Prefix
+//@   requires hello != nil && l != nil && clientInfo != nil
+//@   requires[inv] cap(l.options) == len(l.options)
+//@   nopanic[C14]
+//@   ensures[C16 protocount] len(S) > 0 ==> len(clientInfo.nextProtos) == len(S) - cnt(row(S), off(S), len(S), P)
+//@   ensures[C16 protos] len(S) > 0 ==> forall j int :: 0 <= j && j < len(S) && !isPref(S[j]) ==>
+//@   |   clientInfo.nextProtos[j - cnt(row(S), off(S), j, P)] == S[j]
+//@   loop 0 invariant[shape] fresh(trimmedProtos) && 0 <= rangeindex + 1 && rangeindex + 1 <= len(S)
+//@   |   && len(trimmedProtos) == rangeindex + 1 - cnt(row(S), off(S), rangeindex + 1, P) && 0 <= cnt(row(S), off(S), rangeindex + 1, P)
+//@   |   && cnt(row(S), off(S), rangeindex + 1, P) <= rangeindex + 1
+//@   loop 0 invariant[elems] forall j int :: 0 <= j && j < rangeindex + 1 && !isPref(S[j]) ==>
+//@   |   trimmedProtos[j - cnt(row(S), off(S), j, P)] == S[j] && 0 <= cnt(row(S), off(S), j, P) && cnt(row(S), off(S), j, P) <= j
+//@   |   && j - cnt(row(S), off(S), j, P) < len(trimmedProtos)
+//@   loop 1 invariant[scan] rangeindex + 1 >= 0
+//@   call field:protocol.InterceptingListener.generateServerCertificatesFn assert[C02 nowaiver] arg2 != nil && (arg2.SkipVerification ==> hasPrefix(protoToReturn, FetchNodeCredsNextProtoV1Prefix))
+//@   call tls.ServerConfig assert[C02 expectedkey] bytes(opts(arg2).WithExpectedPublicKey) == bytes(serverCertsReq.CertificatePublicKeyPkix)
+// (the waiver for the credential-fetch handshake is added by the closure on the fetch branch only; an application that
+// configures the listener itself with the fetch prefix option is outside the property)
+//@   call tls.ServerConfig assert[C02 fetchonly] opts(arg2).WithAlpnProtoPrefix == FetchNodeCredsNextProtoV1Prefix
+//@   |   && opts(l.options).WithAlpnProtoPrefix != FetchNodeCredsNextProtoV1Prefix ==> hasPrefix(protoToReturn, FetchNodeCredsNextProtoV1Prefix)
+//@   modifies clientInfo.nextProtos, clientInfo.clientState, StNodeInfo, StToken, nosharedappend
+
+//@ func protocol.NewInterceptingListener
+//@   nopanic[C14,C15]
+//@   ensures[C15 failclosed] err != nil ==> ret == nil
+//@   ensures[C15 inv] err == nil ==> ret != nil && fresh(ret) && cap(ret.options) == len(ret.options)
+//@   |   && ret.fetchCredsFn != nil && ret.generateServerCertificatesFn != nil && ret.baseLn == config.BaseListener
+
+//@ func protocol.(*InterceptingListener).Accept
+//@   requires l != nil && l.fetchCredsFn != nil && l.generateServerCertificatesFn != nil
+//@   requires[inv] cap(l.options) == len(l.options)
+//@   nopanic[C14]
+//@   ensures[C14 temporary] retErr != nil ==> isTemporary(retErr) || flag("baseAcceptFailed") || opts(l.options).Err
+//@   ensures[C14 failclosed] retErr != nil ==> IsNil(conn)
+//@   ensures[C02 nofetch] retErr == nil ==> !IsNil(conn) && !hasPrefix(negProto(conn.Conn), FetchNodeCredsNextProtoV1Prefix)
+//@   call protocol.NewConn assert[C16 meta] opts(arg1).WithState == clientInfo.clientState && opts(arg1).WithExtraAlpnProtos == clientInfo.nextProtos
+//@   call protocol.(*InterceptingListener).getTlsConfigForClient assert[C15 freshinfo] fresh(arg1)
+//@   loop 0 invariant[accepting] true
+//@   modifies St
